@@ -1334,11 +1334,13 @@ _GEN3_HCOBS_TEXT = (
     " Structured sweeps (track gen3). Piece boundaries: 8 patterns of (last bytes of one piece | first bytes of the next: FE|FD, FE|FE FD, "
     "FE|xx, xx|FD, FE FD FE|FD, FE FE|FD, FD|FE, FE|empty|FD) x size classes of the second piece {{1, 2, 64, 256, 4096, 64008, 65535, "
     "65536, 65537}} (thorough: + 63, 65, 255, 257, 64007, 64009, 131072, 131073, 262144, 2^20, 2^20+1) x input-method pairs of b/c/a/r/S/T (2 per cell in "
-    "quick, all 36 in thorough) x position of the boundary in the current chunk (piece 1 = 0 / 3 / 249..251 filler bytes + the pattern), "
+    "quick, 18 of 36 per cell in thorough, alternating halves) x position of the boundary in the current chunk (piece 1 = 0 / 3 / 249..251 filler bytes + the pattern), "
     "where every piece BODY is constant filler without FE / FD (optionally one lone FD or one stuff sequence in the middle, FE / FD as "
     "last byte, a third piece FD.. of 1 / 3 / 65537 bytes), written with the compact byte-string tokens `*TTxN` (N copies of TT) joined "
     "by `+`, parsed identically by util::from_hex and Driver.parseHex. Every chunk length: zenc{zdec} on 252 + k zero bytes for every k in "
-    "0..=64008 (thorough; quick: every k within 1 of a multiple of 253 or of a power of two) = every value of the two-byte size header"
+    "0..=64008 (thorough; quick: every k within 1 of a multiple of 253 or of a power of two) = every value of the two-byte size header; "
+    "`zenc <m> <n> fe` is the same piece with FE as last byte of the full first chunk (same chunking, replayed by the model on the actual "
+    "bytes), so a header whose first byte comes out as FD is a stuff sequence on the wire (a C02 finding, not only a C07 one)"
     "{zdec2}.")
 SPECS["C02"]["level_text"] += _GEN3_HCOBS_TEXT.format(zdec="", zdec2="")
 for _pid in ("C01", "C07"):
@@ -1348,3 +1350,9 @@ for _pid in ("C01", "C07"):
         "two-byte header after an empty first chunk, header only, all 65536 values (thorough; quick: every value with a digit in "
         "{0, 1, 2, 251..255} or on a diagonal), unsplit and split between the two bytes; limits (2, 507): every header with high digit "
         "0..=3 with a filler body of that size"))
+# the hcobs families' enumerated cases grew (track gen3 sweeps): checks that run them with few random cases (one shard by
+# default) split them over 4 processes in the quick tier
+for _pid in ("C09", "C10"):
+    for _f in SPECS[_pid]["families"]:
+        if _f["name"] in ("hcobs_enc", "hcobs_dec"):
+            _f.setdefault("shards", {}).setdefault("quick", 4)
